@@ -56,13 +56,14 @@ class Unspecified(Exception):
 
 
 class RAtom:
-    __slots__ = ('element', 'aromatic', 'isotope', 'charge', 'hcount', 'amap', 'bracket', 'chiral', 'order', 'preceded')
+    __slots__ = ('element', 'aromatic', 'isotope', 'charge', 'hcount', 'amap', 'bracket', 'chiral', 'order', 'preceded', 'nrc')
 
     def __init__(self, element, aromatic=False, isotope=None, charge=0, hcount=None, amap=0, bracket=False, chiral=None):
         self.element, self.aromatic, self.isotope, self.charge = element, aromatic, isotope, charge
         self.hcount, self.amap, self.bracket, self.chiral = hcount, amap, bracket, chiral
         self.order = []        # neighbour order for chirality: atom indices, 'H', or ('rc', digit) placeholders until closed
         self.preceded = False  # has a preceding (bonded, written-before) atom
+        self.nrc = 0           # ring-closure digits written on the atom
 
     def view(self):
         return (self.element, self.aromatic, self.isotope, self.charge, self.hcount, self.amap, self.chiral)
@@ -74,14 +75,16 @@ class RMol:
         self.bonds = {}     # (i, j) i<j -> order
         self.dirs = {}      # (a, b) -> True if b is "up" seen from a (both perspectives stored when the bond is written in a chain)
         self.double_dir = set()  # bonds carrying two directional symbols (ring closure, both ends) - parity not evaluated
+        self.binfo = {}     # (i, j) i<j -> (how the order was written: 'implicit' | 'directional' | 'explicit', ring closure?)
 
-    def add_bond(self, i, j, o):
+    def add_bond(self, i, j, o, kind='implicit', rc=False):
         if i == j:
             raise Reject('ring-closure-self')
         k = (i, j) if i < j else (j, i)
         if k in self.bonds:
             raise Reject('duplicate-bond')
         self.bonds[k] = o
+        self.binfo[k] = (kind, rc)
 
     def components(self):
         adj = {i: set() for i in range(len(self.atoms))}
@@ -125,9 +128,9 @@ class RMol:
                 out.append((i, nb, a.chiral))
             elif len(real) == 3 and h == 1:
                 out.append((i, nb, a.chiral))
-            elif len(real) == 3 and h == 0 and a.preceded:
-                # lone pair takes the slot an implicit H would take, right after the preceding atom; OpenSMILES does not say where
-                # the lone pair of a centre *without* preceding atom goes (toolkits differ) - no parity returned there
+            elif len(real) == 3 and h == 0 and a.preceded and a.nrc == 0 and a.element in ('N', 'P', 'S', 'As', 'Se'):
+                # lone pair takes the slot an implicit H would take, right after the preceding atom.  OpenSMILES does not say where
+                # the lone pair goes for a centre without preceding atom or with ring-closure digits (toolkits differ): no parity there
                 nb = list(real)
                 nb.insert(1, 'H')
                 out.append((i, nb, a.chiral))
@@ -256,7 +259,7 @@ class _P:
             self.m.dirs[(j, i)] = not up
         else:
             o = BOND_ORDER[sym]
-        self.m.add_bond(i, j, o)
+        self.m.add_bond(i, j, o, 'implicit' if sym is None else ('directional' if sym in '/\\' else 'explicit'))
 
     def ringbonds(self, idx):
         a = self.m.atoms[idx]
@@ -287,6 +290,7 @@ class _P:
             else:
                 return
             self.i = j
+            a.nrc += 1
             if d in self.rc:
                 p, psym, slot = self.rc.pop(d)
                 if p == idx:
@@ -304,7 +308,7 @@ class _P:
                     o = os_.pop()
                     if any(s in '/\\' for s in kinds) and any(s not in '/\\' and s != '-' for s in kinds):
                         raise Reject('ring-closure-bond-mismatch')
-                self.m.add_bond(p, idx, o)
+                self.m.add_bond(p, idx, o, 'implicit' if not kinds else ('directional' if all(s in '/\\' for s in kinds) else 'explicit'), True)
                 nd = 0
                 if psym is not None and psym in '/\\':   # written on the opening atom: "p sym idx"
                     self.m.dirs[(p, idx)] = psym == '/'
@@ -348,7 +352,9 @@ class _P:
                 raise Reject('branch-open' if c == '' else self._bad(c))
             self.i += 1
         c = self.peek()
-        if c and (c in _DIG or c == '%'):
+        if c and c in '-=#:/\\~' and self.i + 1 < self.n:
+            c = self.s[self.i + 1]
+        if c and (c in _DIG or c == '%') and self.m.atoms[idx].order and self.s[self.i - 1] == ')':
             raise Reject('ring-closure-after-branch')
 
     # ---- atoms ---------------------------------------------------------------------------------------------------------
@@ -498,6 +504,7 @@ def _join(mols):
             out.atoms.append(a)
         for (i, j), o in m.bonds.items():
             out.bonds[(i + off, j + off)] = o
+            out.binfo[(i + off, j + off)] = m.binfo[(i, j)]
         for (i, j), u in m.dirs.items():
             out.dirs[(i + off, j + off)] = u
         for fs in m.double_dir:
